@@ -331,11 +331,14 @@ pub struct ExecCfg {
     pub push_interval_ms: Option<u64>,
     /// if non-empty, the phase (µs) is a data choice among these values (overrides `phase_us`)
     pub phase_choices: Vec<u64>,
+    /// if non-empty: how long the server process has been up (ms of virtual time since the deadline epoch) before the
+    /// scenario starts - a data choice among these values
+    pub uptime_choices_ms: Vec<u64>,
 }
 
 impl Default for ExecCfg {
     fn default() -> Self {
-        ExecCfg { caps: (0, 0), phase_us: 0, points_on: true, max_steps: 20_000, push_interval_ms: None, phase_choices: vec![] }
+        ExecCfg { caps: (0, 0), phase_us: 0, points_on: true, max_steps: 20_000, push_interval_ms: None, phase_choices: vec![], uptime_choices_ms: vec![] }
     }
 }
 
@@ -426,6 +429,14 @@ where
     tokio::verif_hook::set_chooser(Some(tokio_chooser));
     QUIET_PANICS.with(|q| q.set(true));
     let out = rt.block_on(tokio::task::unconstrained(async {
+        // server uptime: whole multiples of 100 ms, so that the phase alignment below is preserved
+        if !cfg.uptime_choices_ms.is_empty() {
+            let k = shared.lock().unwrap().pick(Kind::Data, "uptime", cfg.uptime_choices_ms.len());
+            let up = cfg.uptime_choices_ms[k] / 100 * 100;
+            if up > 0 {
+                tokio::time::advance(Duration::from_millis(up)).await;
+            }
+        }
         // align t0 with the requested phase of the 100 ms grid
         tokio::time::advance(Duration::from_micros(delta)).await;
         debug_assert_eq!(grid_phase_us() % 100_000, want);
